@@ -26,6 +26,18 @@ type status struct {
 	parkedUn     map[int]bool
 }
 
+func field(obs, key string) string {
+	i := strings.Index(obs, key)
+	if i < 0 {
+		return ""
+	}
+	rest := obs[i+len(key):]
+	if j := strings.IndexAny(rest, " ]"); j >= 0 {
+		return rest[:j]
+	}
+	return rest
+}
+
 func callClass(call string) string { return strings.SplitN(call, ":", 2)[0] }
 
 func usesWrite(k string) bool {
@@ -57,7 +69,7 @@ func randCall(o *corr.Out, sc *scenario) string {
 	case 0, 1, 2:
 		return "send:" + payload(o, sizes[r.Intn(len(sizes))])
 	case 3:
-		return fmt.Sprintf("raw:%d:%s", []int{1, 2, 7, 2, 9}[r.Intn(5)], payload(o, sizes[r.Intn(len(sizes))]))
+		return fmt.Sprintf("raw:%d:%s", []int{1, 3, 7, 7, 9}[r.Intn(5)], payload(o, sizes[r.Intn(len(sizes))]))
 	case 4:
 		return "flush"
 	case 5, 6:
@@ -155,6 +167,46 @@ func oracles(o *corr.Out, sc *scenario, w *World) {
 		o.Oracle("wire-wellformed", sc.request(), bad)
 	} else {
 		o.OracleOK("wire-wellformed")
+	}
+	// (1b) C01: with automatic flushing, a MsgSend that returned nil has put its whole message into
+	// completed transport writes by the time it returns (no further call is needed)
+	if !sc.manual {
+		sends, onWire := 0, 0
+		okSend := map[string]bool{}
+		for _, a := range sc.acts {
+			if f := strings.Split(a, "!"); len(f) == 3 && f[0] == "i" && (strings.HasPrefix(f[2], "send:") || strings.HasPrefix(f[2], "sendp:")) {
+				okSend[f[1]] = true
+			}
+		}
+		for i, ob := range sc.obs {
+			for _, kv := range strings.Split(field(ob, "d="), ",") {
+				p := strings.SplitN(kv, "=", 2)
+				if len(p) == 2 && okSend[p[0]] && p[1] == "nil" {
+					sends++
+				}
+			}
+			if wv := field(ob, "w="); wv != "-" && wv != "" {
+				for _, hx := range strings.Split(wv, ",") {
+					rem := unhex(hx)
+					for len(rem) > 0 {
+						r := wire.RefDecode(rem)
+						if r.State() != "ok" {
+							break
+						}
+						fr := r.Frame()
+						rem = rem[len(rem)-r.Rem():]
+						if fr.Kind == drpcwire.KindMessage && fr.Done {
+							onWire++
+						}
+					}
+				}
+			}
+			if onWire < sends {
+				o.Oracle("C01:send-reaches-wire", sc.request(), fmt.Sprintf("step %d: %d sends have returned nil but only %d complete messages are in completed transport writes: %s", i, sends, onWire, ob))
+				break
+			}
+		}
+		o.OracleOK("C01:send-reaches-wire")
 	}
 	// (2) per-step flags: ctx done iff finished; finished implies terminated; once set they stay set
 	pT, pF := false, false
